@@ -1254,6 +1254,11 @@ class DiskRefsContainer(RefsContainer):
             if packed_refs.get(probe_ref, None) is not None:
                 raise NotADirectoryError(filename)
             probe_ref = Ref(os.path.dirname(probe_ref))
+        # ... nor any packed ref below this one (its directory need not exist)
+        dir_prefix = realname + b"/"
+        for packed_name in packed_refs:
+            if packed_name.startswith(dir_prefix):
+                raise IsADirectoryError(filename)
 
         ensure_dir_exists(os.path.dirname(filename))
         with GitFile(filename, "wb") as f:
@@ -1338,6 +1343,11 @@ class DiskRefsContainer(RefsContainer):
             if packed_refs.get(probe_ref, None) is not None:
                 raise NotADirectoryError(filename)
             probe_ref = Ref(os.path.dirname(probe_ref))
+        # ... nor any packed ref below this one (its directory need not exist)
+        dir_prefix = realname + b"/"
+        for packed_name in packed_refs:
+            if packed_name.startswith(dir_prefix):
+                raise IsADirectoryError(filename)
 
         ensure_dir_exists(os.path.dirname(filename))
         with GitFile(filename, "wb") as f:
